@@ -171,7 +171,7 @@ def exo(n=EXO_LEN, base=20.0):
 
 
 def economy(plan, cc, currency=None, gov='cons', hh='hh', caps=False, firm='fm0', mm=False,
-            a1=0.6, a2=0.4, theta=0.2, kind='Country', make_country=True, free_xr=True):
+            a1=0.6, a2=0.4, theta=0.2, kind='Country', make_country=True, free_xr=True, bonds=False):
     """One SIM/PC-like economy in country `cc`.
     gov: cons | tre_cb (treasury + central bank + money market + deposit market + portfolio households)
          | gold_gov | tre_goldcb
@@ -239,6 +239,11 @@ def economy(plan, cc, currency=None, gov='cons', hh='hh', caps=False, firm='fm0'
         plan.decl(k('MON'), lambda c: sd.MoneyMarket(c[cc], issuer_short_code=c.nm('CB')), group=cc, kind='market')
         plan.decl(k('DEP'), lambda c: sd.DepositMarket(c[cc], issuer_short_code=c.nm('TRE')), group=cc, kind='market')
         plan.features.update({'mm', 'dep'})
+        if bonds:
+            # a second interest-bearing asset: households allocate wealth among three assets
+            plan.decl(k('BOND'), lambda c: sd.DepositMarket(c[cc], code='BOND', issuer_short_code=c.nm('TRE')), group=cc, kind='market')
+            plan.post(lambda c: c[k('BOND')].SetExogenous('r', '[.04,]*%d' % EXO_LEN))
+            plan.features.add('bonds')
 
         def portfolio_post(c, who=k('HH')):
             h = c[who]
@@ -246,7 +251,11 @@ def economy(plan, cc, currency=None, gov='cons', hh='hh', caps=False, firm='fm0'
             h.AddVariable('L1', 'lambda_1', '5.')
             h.AddVariable('L2', 'lambda_2', '.01')
             r = c[k('DEP')].GetVariableName('r')
-            h.GenerateAssetWeighting({'DEP': 'L0 + L1 * {0} - L2 * (AfterTax/F)'.format(r)}, 'MON')
+            weights = [('DEP', 'L0 + L1 * {0} - L2 * (AfterTax/F)'.format(r))]
+            if bonds:
+                h.AddVariable('L3', 'lambda_3', '0.1')
+                weights.append(('BOND', 'L3 + 0.5 * {0}'.format(c[k('BOND')].GetVariableName('r'))))
+            h.GenerateAssetWeighting(weights, 'MON')
         plan.post(portfolio_post)
         plan.params += [(k('HH'), 'L0'), (k('HH'), 'L1'), (k('HH'), 'L2')]
         plan.post(lambda c: c[k('DEP')].SetExogenous('r', '[.025,]*%d' % EXO_LEN))
@@ -459,6 +468,8 @@ def zoo(tier='quick'):
     Z.append(p)
     Z.append(single('pc_exp_caps_margin', gov='tre_cb', hh='hhexp', caps=True, firm='fm1'))
     Z.append(single('pc_multi', gov='tre_cb', firm='multi'))
+    Z.append(single('pc_bonds', gov='tre_cb', bonds=True))
+    Z.append(single('pc_bonds_caps', gov='tre_cb', bonds=True, caps=True, firm='fm1', hh='hhexp'))
     # intra-zone gifts (two countries, same currency), with the four income-flag combinations
     for i, (fs, fd) in enumerate(((True, True), (True, False), (False, True), (False, False))):
         p = Plan('samezone_gift_%d' % i)
